@@ -621,8 +621,8 @@ type Case struct {
 type outcome struct {
 	rejected  string
 	route     []int
-	needRow   map[int]string // table -> first TRUE row that lives there
-	missing   []int          // needed tables absent from the route (or present on the wrong slice/db)
+	needRow   map[int]int // table -> first TRUE row that lives there (value index*3 + k index)
+	missing   []int       // needed tables absent from the route (or present on the wrong slice/db)
 	misplaced bool
 	trueRows  int
 	rows      int
@@ -634,6 +634,16 @@ type worker struct {
 	l     planrig.Layout
 	all   []int
 	cache map[string]*outcome
+	nRun  int
+	pos   map[int]int // table index -> position in all
+}
+
+func (w *worker) rowText(code int) string {
+	ks := "NULL"
+	if kv := kVals[code%3]; kv != nil {
+		ks = fmt.Sprint(kv)
+	}
+	return fmt.Sprintf("(%s=%s, k=%s)", w.l.Key(), w.u.vals[code/3].SQL, ks)
 }
 
 var kVals = []interface{}{nil, int64(1), int64(2)}
@@ -643,7 +653,11 @@ func newWorker(l planrig.Layout, mode string) *worker {
 	if err != nil {
 		ev.Fatalf("layout %v: %v", l, err)
 	}
-	return &worker{rig: rig, u: buildUniverse(rig, mode), l: l, all: rig.Tables(), cache: map[string]*outcome{}}
+	w := &worker{rig: rig, u: buildUniverse(rig, mode), l: l, all: rig.Tables(), cache: map[string]*outcome{}, pos: map[int]int{}}
+	for i, t := range w.all {
+		w.pos[t] = i
+	}
+	return w
 }
 
 func (w *worker) run(form string, c *Cond) *outcome {
@@ -652,7 +666,8 @@ func (w *worker) run(form string, c *Cond) *outcome {
 }
 
 func (w *worker) runSQL(sql string) *outcome {
-	o := &outcome{needRow: map[int]string{}}
+	o := &outcome{needRow: map[int]int{}}
+	w.nRun++
 	stmt, err := w.rig.Parse(sql)
 	if err != nil {
 		ev.Fatalf("generated statement does not parse: %s: %v", sql, err)
@@ -676,23 +691,33 @@ func (w *worker) runSQL(sql string) *outcome {
 		return nil, false
 	}}
 	twoSem := w.u.mode == "str" && w.l.IsDate()
+	cc, err := planrig.Compile(conds)
+	if err != nil {
+		ev.Fatalf("%s: %v", sql, err)
+	}
+	cross := w.nRun%211 == 1 // self-check of the compiled evaluator against the AST walker
 	for i := range w.u.vals {
 		v := &w.u.vals[i]
 		if v.Idx < 0 {
 			continue
 		}
 		x = v.Key
-		for _, kv := range kVals {
+		for ki, kv := range kVals {
 			k = kv
 			o.rows++
 			env.Compare = planrig.DatetimeCompare
-			t, err := planrig.EvalAll(conds, &env)
+			t, err := cc.Eval(&env)
 			if err != nil {
 				ev.Fatalf("reference evaluation of %s: %v", sql, err)
 			}
+			if cross {
+				if t2, err2 := planrig.EvalAll(conds, &env); err2 != nil || t2 != t {
+					ev.Fatalf("compiled and direct evaluation disagree on %s: %v / %v %v", sql, t, t2, err2)
+				}
+			}
 			if t == planrig.True && twoSem { // must also hold if the column were a string column
 				env.Compare = planrig.BytewiseCompare
-				t, err = planrig.EvalAll(conds, &env)
+				t, err = cc.Eval(&env)
 				if err != nil {
 					ev.Fatalf("reference evaluation of %s: %v", sql, err)
 				}
@@ -702,11 +727,7 @@ func (w *worker) runSQL(sql string) *outcome {
 			}
 			o.trueRows++
 			if _, ok := o.needRow[v.Idx]; !ok {
-				ks := "NULL"
-				if kv != nil {
-					ks = fmt.Sprint(kv)
-				}
-				o.needRow[v.Idx] = fmt.Sprintf("(%s=%s, k=%s)", key, v.SQL, ks)
+				o.needRow[v.Idx] = i*3 + ki
 			}
 		}
 	}
@@ -868,7 +889,7 @@ func (w *worker) report(r *ev.Run, mode, form string, c *Cond, o *outcome) {
 		}
 		sql := renderSQL(form, w.l.Key(), min)
 		r.Violation(ev.Witness{
-			Summary:  fmt.Sprintf("%s: %s  → route %v misses table %d which holds the matching row %s", w.l, sql, mo.route, m, mo.needRow[m]),
+			Summary:  fmt.Sprintf("%s: %s  → route %v misses table %d which holds the matching row %s", w.l, sql, mo.route, m, w.rowText(mo.needRow[m])),
 			Features: f,
 			Case:     Case{Layout: w.l, Mode: mode, Form: form, Cond: min, SQL: sql},
 		})
@@ -971,6 +992,12 @@ func runTask(r *ev.Run, t task, st *stats, routes map[string]struct{}) {
 	w := newWorker(t.l, t.mode)
 	cs := conds(w.u, t.gen)
 	sampled := 0
+	masks := map[int]struct{}{}
+	defer func() {
+		for m := range masks {
+			routes[fmt.Sprintf("%s|%b", t.l.String(), m)] = struct{}{}
+		}
+	}()
 	for _, c := range cs {
 		if r.TimeUp() {
 			return
@@ -987,7 +1014,11 @@ func runTask(r *ev.Run, t task, st *stats, routes map[string]struct{}) {
 		if len(o.route) == 0 {
 			st.emptyRoutes++
 		}
-		routes[t.l.String()+"|"+fmt.Sprint(o.route)] = struct{}{}
+		mask := 0
+		for _, ti := range o.route {
+			mask |= 1 << uint(w.pos[ti])
+		}
+		masks[mask] = struct{}{}
 		pruned := len(o.route) < len(w.all)
 		if pruned && len(o.needRow) > 0 {
 			st.nontrivial++
@@ -1028,7 +1059,7 @@ func main() {
 	if r.ReplayCase(&c) {
 		w := newWorker(c.Layout, c.Mode)
 		o := w.run(c.Form, c.Cond)
-		fmt.Printf("replay: %s\n  rejected=%q route=%v need=%v missing=%v\n", renderSQL(c.Form, c.Layout.Key(), c.Cond), o.rejected, o.route, o.needRow, o.missing)
+		fmt.Printf("replay: %s\n  rejected=%q route=%v tables_needed=%d missing=%v\n", renderSQL(c.Form, c.Layout.Key(), c.Cond), o.rejected, o.route, len(o.needRow), o.missing)
 		r.Set("evaluations", 1)
 		if o.rejected == "" && len(o.missing) > 0 {
 			w.report(r, c.Mode, c.Form, c.Cond, o)
